@@ -106,6 +106,10 @@ class Outcome(object):
         os.makedirs(os.path.join(OUT, 'evidence'), exist_ok=True)
         with open(os.path.join(OUT, 'evidence', self.prop + '.json'), 'w') as fh:
             json.dump(evid, fh, indent=1, default=str)
+        if os.environ.get('VERIF_SIGCOUNTS'):
+            import collections
+            for sig, n in collections.Counter(v['sig'] for v in self.violations).most_common(40):
+                print('SIG %6d %s' % (n, sig))
         for d in self.drift[:10]:
             print('DRIFT property=%s %s' % (self.prop, d))
         if len(self.drift) > 10:
